@@ -94,6 +94,27 @@ def product_stage(ctx, present=0):
             for _ in range(3 if th else 1):
                 ws = rng.choice(req)
                 cases.append((c03.mk(rng, 2, la), c03.mk(rng, 2, lb), ws))
+    # operands whose CURVATURE IS TINY (second-order coefficients of size 1e-9 .. 1e-12, no first-order part) against operands
+    # without curvature on another listing of the names: the product's second derivatives are then exactly (tiny curvature) x
+    # (the other value) - a term that must not be mistaken for rounding noise
+    for la in stored:
+        if not la:
+            continue
+        for _ in range(2 if th else 1):
+            lb = list(la)
+            rng.shuffle(lb)
+            if rng.random() < 0.4:
+                lb = lb + ["w"]
+            sc = 10.0 ** rng.randint(-12, -9)
+            n = len(la)
+            dd = [[0.0] * n for _ in range(n)]
+            for i in range(n):
+                for j in range(i, n):
+                    dd[i][j] = dd[j][i] = float(rng.choice([1, 2, -3, 5, -7])) * sc
+            f = ("d2", list(la), float(rng.choice([2, -3, 0.5])), [0.0] * n, dd)
+            g = ("d2", lb, float(rng.choice([85000.0, -3.0, 7.0, 0.25])), [float(rng.choice([1, -2, 3])) for _ in lb], [[0.0] * len(lb) for _ in lb])
+            ws = list(la) if rng.random() < 0.5 else lb
+            cases.append((g, f, ws) if rng.random() < 0.6 else (f, g, ws))
     enc = [[26] + dg.enc_number(a)[1:] + dg.enc_number(b)[1:] + dg.enc_names(ws) for a, b, ws in cases]
     impl = run_harness("dual", ["c " + " ".join(str(x) for x in e) for e in enc], present=present)
     for (a, b, ws), e, o in zip(cases, enc, impl):
@@ -107,9 +128,10 @@ def product_stage(ctx, present=0):
         else:
             L = [b2f(x) for x in o[2:2 + n * n]]
             R = [b2f(x) for x in o[4 + n * n:]]
-            scale = max([abs(x) for x in L + R] + [1.0])
+            scale = max([abs(x) for x in L + R] + [0.0])
             for k, (x, y) in enumerate(zip(L, R)):
-                if not fclose(x, y, rtol=1e-9, atol=1e-9 * scale):
+                # each entry to 1e-9 of ITS OWN size, plus rounding noise of the largest entry (2e-14 of it)
+                if not (x == y or (x == x and y == y and abs(x - y) <= 1e-9 * max(abs(x), abs(y)) + 2e-14 * scale)):
                     what = "entry (%s, %s): product rule on manifolds gives %r, gradient2 of the product gives %r" % (
                         ws[k // n], ws[k % n], x, y)
                     break
